@@ -4,8 +4,9 @@ import sys
 import time
 from verif.native.common import load_hint, write_replay, finish
 from verif.native.server_prelude import PRELUDE
+from verif.native.isolation import ISOLATED
 
-BODY = PRELUDE + '''
+BODY = PRELUDE + ISOLATED + '''
 import os, shutil, tempfile, copy
 from BPTK_Py.externalstateadapter import FileAdapter
 
@@ -95,62 +96,90 @@ def run_c19(case):
     finally:
         shutil.rmtree(d, ignore_errors=True)
 
+def _c20_begin2():
+    return {"scenario_managers": ["sm"], "scenarios": ["base"], "equations": ["s"]}
+
+def _c20_prehistory(case, cl, uu):
+    # an earlier session of the same instance with other equations, m steps long, saved at the same clock positions
+    if case.get("resession"):
+        for _ in range(int(case["resession"])):
+            step_req(cl, uu, "1.0" if case["compress"] else "none")
+        cl.post("/%s/begin-session" % uu, json=_c20_begin2())
+
+def _c20_setup(case):
+    SM[0] = "sm"
+    RUNSPEC[:] = case.get("runspec", [1.0, 10.0, 1.0])
+
+def _c20_reference(case, d_ref):
+    """the uninterrupted session: every request answered by one server process"""
+    _c20_setup(case)
+    ref = make_app(fake_clock=True, adapter=FileAdapter(case["compress"], d_ref))
+    rc = ref.test_client()
+    ur = start(rc, timeout={"hours": 5}); begin(rc, ur)
+    _c20_prehistory(case, rc, ur)
+    ref_out = []
+    for kind in case["kinds"]:
+        r = step_req(rc, ur, kind); ref_out.append((r.status_code, norm(json.loads(r.data))))
+    return ref_out
+
+def _c20_before_crash(case, d):
+    """the server process that is lost after request crash_at; only the external state in d survives it"""
+    _c20_setup(case)
+    app = make_app(fake_clock=True, adapter=FileAdapter(case["compress"], d))
+    c = app.test_client()
+    u = start(c, timeout={"hours": 5}); begin(c, u)
+    others = []
+    for _ in range(case.get("neighbours", 0)):
+        o = start(c, timeout={"hours": 5}); begin(c, o); step_req(c, o, "none" if not case["compress"] else "1.0"); others.append(o)
+    _c20_prehistory(case, c, u)
+    for kind in case["kinds"][:case["crash_at"]]:
+        step_req(c, u, kind)
+    return u, others
+
+def _c20_after_crash(case, d, u, others, ref_out):
+    """a new server process on the same external state"""
+    _c20_setup(case)
+    k = case["crash_at"]
+    try:
+        app2 = make_app(fake_clock=True, adapter=FileAdapter(case["compress"], d))
+    except Exception as e:
+        return "a new server on the same external state does not start: %s: %s" % (type(e).__name__, e)
+    c2 = app2.test_client()
+    for o in others:
+        r = c2.get("/%s/session-results" % o)
+        if r.status_code != 200:
+            return "a neighbouring instance was not restored (%d)" % r.status_code
+    if case.get("torn") is not None:
+        return None                                # a damaged file may cost that one instance
+    if k == 0:
+        return None                                # nothing had been externalised yet
+    out = []
+    for kind in case["kinds"][k:]:
+        r = step_req(c2, u, kind)
+        try:
+            out.append((r.status_code, norm(json.loads(r.data))))
+        except Exception:
+            out.append((r.status_code, None))
+    if out != ref_out[k:]:
+        for i, (a, b) in enumerate(zip(out, ref_out[k:])):
+            if a != b:
+                return "after a crash behind request %d, request %d answers %s, an uninterrupted session answers %s" % (k, k + i + 1, str(a)[:160], str(b)[:160])
+    return None
+
 def run_c20(case):
-    """case: dict(compress, kinds=[...], crash_at=k, torn=None|fraction, neighbours=0|1)"""
+    """case: dict(compress, kinds=[...], crash_at=k, torn=None|fraction, neighbours=0|1).  The three server processes of a
+    case (reference, before the crash, after the crash) are forked children of the harness: whatever the first keeps in
+    process memory (module globals, class attributes) is really gone when the third one starts."""
     d = tempfile.mkdtemp()
     d_ref = tempfile.mkdtemp()
     try:
-        # uninterrupted reference
-        ref = make_app(fake_clock=True, adapter=FileAdapter(case["compress"], d_ref))
-        rc = ref.test_client()
-        ur = start(rc, timeout={"hours": 5}); begin(rc, ur)
-        ref_out = []
-        for kind in case["kinds"]:
-            r = step_req(rc, ur, kind); ref_out.append((r.status_code, norm(json.loads(r.data))))
-        app = make_app(fake_clock=True, adapter=FileAdapter(case["compress"], d))
-        c = app.test_client()
-        u = start(c, timeout={"hours": 5}); begin(c, u)
-        others = []
-        for _ in range(case.get("neighbours", 0)):
-            o = start(c, timeout={"hours": 5}); begin(c, o); step_req(c, o, "none" if not case["compress"] else "1.0"); others.append(o)
-        k = case["crash_at"]
-        if case.get("resession"):
-            # an earlier, longer session of the same instance (its state file is bigger than the next one)
-            for _ in range(6):
-                step_req(c, u, "1.0" if case["compress"] else "none")
-            c.post("/%s/end-session" % u); begin(c, u)
-        for kind in case["kinds"][:k]:
-            step_req(c, u, kind)
-        del app, c                                      # the process is lost
+        ref_out = isolated(_c20_reference, case, d_ref)
+        u, others = isolated(_c20_before_crash, case, d)
         path = os.path.join(d, u + ".json")
         if case.get("torn") is not None and os.path.exists(path):
             data = open(path).read()
             open(path, "w").write(data[: int(len(data) * case["torn"])])
-        try:
-            app2 = make_app(fake_clock=True, adapter=FileAdapter(case["compress"], d))
-        except Exception as e:
-            return "a new server on the same external state does not start: %s: %s" % (type(e).__name__, e)
-        c2 = app2.test_client()
-        for o in others:
-            r = c2.get("/%s/session-results" % o)
-            if r.status_code != 200:
-                return "a neighbouring instance was not restored (%d)" % r.status_code
-        if case.get("torn") is not None:
-            return None                                # a damaged file may cost that one instance
-        if k == 0:
-            return None                                # nothing had been externalised yet
-        out = []
-        for kind in case["kinds"][k:]:
-            r = step_req(c2, u, kind)
-            try:
-                out.append((r.status_code, norm(json.loads(r.data))))
-            except Exception:
-                out.append((r.status_code, None))
-        if out != ref_out[k:]:
-            for i, (a, b) in enumerate(zip(out, ref_out[k:])):
-                if a != b:
-                    return "after a crash behind request %d, request %d answers %s, an uninterrupted session answers %s" % (k, k + i + 1, str(a)[:160], str(b)[:160])
-        return None
+        return isolated(_c20_after_crash, case, d, u, others, ref_out)
     finally:
         shutil.rmtree(d, ignore_errors=True); shutil.rmtree(d_ref, ignore_errors=True)
 '''
@@ -191,8 +220,12 @@ def gen20(rnd):
     c0 = rnd.choice(['1.0', '2.0'])
     # (settings that change in mid-session are a known finding: they are not replayed after a restore)
     kinds = [c0 for _ in range(n)] if compress else [rnd.choice([c0, c0]) for _ in range(n)]
-    return dict(compress=compress, kinds=kinds, crash_at=rnd.randint(0, n), torn=rnd.choice([None, None, 0.0, 0.3, 0.9]),
-                neighbours=rnd.choice([0, 1]), resession=rnd.random() < 0.3)
+    case = dict(compress=compress, kinds=kinds, crash_at=rnd.randint(0, n), torn=rnd.choice([None, None, 0.0, 0.3, 0.9]),
+                neighbours=rnd.choice([0, 1]), resession=rnd.choice([0, 0, 1, 2, 6, n]))
+    if not compress and rnd.random() < 0.35:
+        # other run specs (uncompressed mode only: the compressed format is known to renumber steps)
+        case['runspec'] = rnd.choice([[0.0, 2.0, 0.125], [0.5, 9.5, 1.0], [0.25, 4.75, 0.5], [1.0, 1.06, 0.005]])
+    return case
 
 
 def known_probes(prop):
